@@ -41,6 +41,7 @@ def pool_strategy(kinds=("functor", "factory"), max_calls=1, quotas=(None,), max
         "cdelay": st.lists(st.sampled_from([0, 0, 0, 10, 200]), min_size=1, max_size=3),
         "begin_delay": st.sampled_from([0, 0, 20, 300]),
         "repl_begin_delay": st.sampled_from([0, 0, 50]),
+        "end_delay": st.sampled_from([0, 0, 30, 400]),
         "ready_at": st.sampled_from([None, None, 0, 1]),
         "sched": sched or schedules.strategy(),
     }).map(normalise)
@@ -150,7 +151,7 @@ def minimise(case, sig, verdict_fn, budget=400):
                 d = copy.deepcopy(c)
                 d["calls"][i]["n"] = call["n"] // 2
                 yield d
-        for key, val in (("slow", {}), ("cdelay", [0]), ("begin_delay", 0), ("repl_begin_delay", 0), ("ready_at", None), ("rq", None), ("wq", "1.0")):
+        for key, val in (("slow", {}), ("cdelay", [0]), ("begin_delay", 0), ("repl_begin_delay", 0), ("end_delay", 0), ("ready_at", None), ("rq", None), ("wq", "1.0")):
             if c.get(key) != val:
                 d = copy.deepcopy(c)
                 d[key] = val
